@@ -344,6 +344,14 @@ def thm_collect():
     ensures(got == [], id="collect with every file unreadable (error_to_warning) returns []")
     fs2 = _fileset({files[0].path})
     ensures(fs2.collect(files=files, error_to_warning=True) == [("content", f.path, ()) for f in files[1:]], id="None contents are dropped, order kept")
+    # with return_info the file list and the data list stay paired: an unreadable file is dropped from BOTH
+    files4 = _files(4)
+    for bad in ({files4[1].path}, {files4[0].path, files4[3].path}, {f.path for f in files4}):
+        fs3 = _fileset(bad)
+        fl3, dl3 = fs3.collect(files=files4, return_info=True, error_to_warning=True)
+        keep = [f for f in files4 if f.path not in bad]
+        ensures(fl3 == keep and dl3 == [("content", f.path, ()) for f in keep],
+                id="collect(return_info, error_to_warning): infos and contents stay paired, unreadable files are in neither [%d unreadable]" % len(bad))
     ensures(expect_raises(ValueError, _fileset().collect, "2020-01-01", "2020-01-02", files), id="files together with start/end -> ValueError")
 
 
